@@ -43,6 +43,22 @@ package logic
 //      len(b') <= len(b), len(b') == len(b) => b' == b (only shorter canonical encodings may
 //      differ), b' passes the same checkers, and asm(dis(b')) == b'.
 //
+//      From v13 on the assembler salts on-curve stateless programs with a trailing `intcblock 1 s`
+//      and Disassemble decides `#pragma autosalt false` from the original bytes; a non-canonical b
+//      whose canonical form is on-curve therefore comes back as canonical(b) ++ 20 01 s — accepted
+//      exactly in that shape.
+//  E. probe for the known finding C33:reasm-error:cblock-behind-unreferenced-label: a constant
+//     block that is live only through a label nothing jumps to (`err; U0:; intcblock ..; intc 4`)
+//     assembles and passes Check, but its disassembly (label dropped, block now in dead code) is
+//     refused by the assembler. Only these probe programs report under that key.
+//
+// Detection (bin/mut ... --only, quick tier; all DETECTED):
+//   1. assembler.go parseLabels: switch/match targets relative to pos instead of end -> reasm-error
+//   2. assembler.go disassemble immInts: last element of intcblock/pushints dropped   -> roundtrip-mismatch
+//   3. assembler.go asmPushInt: varuint immediate truncated to one byte               -> dis-error
+//   4. assembler.go resolveLabels: v13 backward varint jump measured from lr.position -> roundtrip/check
+//   5. assembler.go disassemble immInt8 printed unsigned                              -> reasm-error (frame_bury 255)
+//
 // Not covered: programs of more than two arbitrary instructions (beyond the branch alphabet),
 // macros (#define), source-map output, comments/whitespace variants of the text.
 //
@@ -73,8 +89,8 @@ type c33Form struct {
 	line      string // assembler line
 	pre       string // lines needed in front (constant blocks for intc/bytec)
 	modes     RunMode
-	label     bool   // line refers to label LE
-	emptyTail bool   // the line is a byte-constant list whose last constant is empty
+	label     bool // line refers to label LE
+	emptyTail bool // the line is a byte-constant list whose last constant is empty
 	args      StackTypes
 }
 
@@ -361,9 +377,9 @@ func c33Pushes(args StackTypes) string {
 const c33Untyped = "int 1\nbnz L0\nerr\nL0:\n"
 
 type c33Env struct {
-	r     *ve.Run
-	st    *c33Stats
-	maxP  *config.ConsensusParams
+	r      *ve.Run
+	st     *c33Stats
+	maxP   *config.ConsensusParams
 	protos [LogicVersion + 1]*config.ConsensusParams
 }
 
@@ -532,14 +548,14 @@ func c33PartA(e *c33Env) {
 // B: two-instruction programs
 // ---------------------------------------------------------------------------------------------
 
-func c33PartB(e *c33Env) {
+func c33PartB(e *c33Env, full bool) {
 	quickVersions := map[uint64]bool{1: true, 3: true, 4: true, 8: true, 13: true, 14: true}
 	var total atomic.Int64
 	for v := uint64(0); v <= LogicVersion; v++ {
-		if !ve.Thorough() && !quickVersions[v] {
+		if !full && !quickVersions[v] {
 			continue
 		}
-		forms := c33Forms(v, true, !ve.Thorough())
+		forms := c33Forms(v, true, !full)
 		n := len(forms)
 		vv := v
 		e.r.ParallelFor(n, func(i int) {
@@ -564,7 +580,7 @@ func c33PartB(e *c33Env) {
 			}
 		})
 	}
-	e.r.Set("B_programs", total.Load())
+	e.r.Add("B_programs", total.Load())
 }
 
 // ---------------------------------------------------------------------------------------------
@@ -583,9 +599,14 @@ var c33BrAlphabet = []c33BrInstr{
 	{"switch", "switch", 2}, {"match", "match", 2}, {"switch", "switch", 3}, {"match", "match", 3},
 }
 
-func c33PartC(e *c33Env) {
+func c33PartC(e *c33Env, full bool) {
 	// slot caps per program length
-	caps := ve.Pick(map[int]int{1: 3, 2: 6, 3: 3, 4: 2}, map[int]int{1: 3, 2: 6, 3: 5, 4: 3})
+	caps := map[int]int{1: 3, 2: 6, 3: 3, 4: 2}
+	typedMax := 2
+	if full {
+		caps = map[int]int{1: 3, 2: 6, 3: 5, 4: 3}
+		typedMax = 3
+	}
 	quickLen4 := map[uint64]bool{8: true, 13: true}
 	type item struct {
 		v     uint64
@@ -602,7 +623,7 @@ func c33PartC(e *c33Env) {
 			}
 		}
 		for n := 1; n <= 4; n++ {
-			if n == 4 && !ve.Thorough() && !quickLen4[v] {
+			if n == 4 && !full && !quickLen4[v] {
 				continue
 			}
 			dims := make([]int, n)
@@ -623,7 +644,7 @@ func c33PartC(e *c33Env) {
 			})
 		}
 	}
-	e.r.Set("C_shapes", len(items))
+	e.r.Add("C_shapes", int64(len(items)))
 	var programs, accepted atomic.Int64
 	e.r.ParallelFor(len(items), func(i int) {
 		it := items[i]
@@ -654,7 +675,7 @@ func c33PartC(e *c33Env) {
 			if e.roundTrip("C-untyped", c33Untyped+body.String(), it.v, "branch-layout", modeAny, false) {
 				na++
 			}
-			if n <= ve.Pick(2, 3) {
+			if n <= typedMax {
 				np++
 				if e.roundTrip("C-typed", body.String(), it.v, "branch-layout", modeAny, false) {
 					na++
@@ -665,8 +686,8 @@ func c33PartC(e *c33Env) {
 		accepted.Add(na)
 		e.r.Class(fmt.Sprintf("C|v%d|n%d|slots%d|anyaccepted=%v", it.v, n, slots, na > 0))
 	})
-	e.r.Set("C_programs", programs.Load())
-	e.r.Set("C_assembler_accepted", accepted.Load())
+	e.r.Add("C_programs", programs.Load())
+	e.r.Add("C_assembler_accepted", accepted.Load())
 }
 
 // ---------------------------------------------------------------------------------------------
@@ -675,8 +696,7 @@ func c33PartC(e *c33Env) {
 
 var c33AsmRefusals = regexp.MustCompile(`is not defined|substring end is before start|field was introduced in v|is not allowed\.|is not settable|is settable in v`)
 
-func c33PartD(e *c33Env) {
-	maxLen := ve.Pick(2, 3)
+func c33PartD(e *c33Env, minLen, maxLen int) {
 	var accepted, disBracket, reasmOK, reasmRefused, shorter, pruned atomic.Int64
 	versions := int(LogicVersion) + 1
 	// membership of field groups in ANY version, for the invalid-immediate bracket
@@ -766,10 +786,12 @@ func c33PartD(e *c33Env) {
 			}
 		}
 		ver := byte(v)
-		if b0 == 0 {
-			one([]byte{ver}) // the empty program
+		if minLen == 0 {
+			if b0 == 0 {
+				one([]byte{ver}) // the empty program
+			}
+			one([]byte{ver, b0})
 		}
-		one([]byte{ver, b0})
 		// prune: an illegal first opcode rejects every extension (Check decodes sequentially)
 		s1, a1 := check([]byte{ver, b0, 0})
 		if s1 != nil && a1 != nil && strings.Contains(s1.Error(), "illegal opcode") && strings.Contains(a1.Error(), "illegal opcode") &&
@@ -777,7 +799,9 @@ func c33PartD(e *c33Env) {
 			pruned.Add(1)
 		} else {
 			for b1 := 0; b1 < 256; b1++ {
-				one([]byte{ver, b0, byte(b1)})
+				if minLen <= 2 {
+					one([]byte{ver, b0, byte(b1)})
+				}
 				if maxLen >= 3 {
 					for b2 := 0; b2 < 256; b2++ {
 						one([]byte{ver, b0, byte(b1), byte(b2)})
@@ -794,13 +818,13 @@ func c33PartD(e *c33Env) {
 			e.r.Class(fmt.Sprintf("D|v%d|%s", v, k))
 		}
 	})
-	e.r.Set("D_max_len", maxLen)
-	e.r.Set("D_checker_accepted", accepted.Load())
-	e.r.Set("D_dis_bracket_not_a_field", disBracket.Load())
-	e.r.Set("D_reassembled", reasmOK.Load())
-	e.r.Set("D_reassembly_refused_whitelisted", reasmRefused.Load())
-	e.r.Set("D_reassembled_shorter_canonical", shorter.Load())
-	e.r.Set("D_first_bytes_pruned_illegal_opcode", pruned.Load())
+	e.r.Set("D_max_len_completed_or_started", maxLen)
+	e.r.Add("D_checker_accepted", accepted.Load())
+	e.r.Add("D_dis_bracket_not_a_field", disBracket.Load())
+	e.r.Add("D_reassembled", reasmOK.Load())
+	e.r.Add("D_reassembly_refused_whitelisted", reasmRefused.Load())
+	e.r.Add("D_reassembled_shorter_canonical", shorter.Load())
+	e.r.Add("D_first_bytes_pruned_illegal_opcode", pruned.Load())
 }
 
 // c33NeverAField reports whether the program contains an instruction whose field immediate is
@@ -892,15 +916,30 @@ func TestVerif_C33(t *testing.T) {
 	r.Set("A_opcodes_never_accepted", never)
 	c33PartE(e)
 	t0 = time.Now()
-	c33PartD(e)
-	r.Note("D took %.1fs", time.Since(t0).Seconds())
+	c33PartD(e, 0, 2)
+	r.Note("D(len<=2) took %.1fs", time.Since(t0).Seconds())
 	t0 = time.Now()
-	c33PartC(e)
-	r.Note("C took %.1fs", time.Since(t0).Seconds())
-	t0 = time.Now()
+	c33PartC(e, false)
+	r.Note("C(quick caps) took %.1fs", time.Since(t0).Seconds())
 	r.Note("C done: assembler accepted %d, rejected %d (cumulative)", e.st.asmOK.Load(), e.st.asmReject.Load())
+	t0 = time.Now()
 	if !r.OutOfTime() {
-		c33PartB(e)
+		c33PartB(e, false)
+	}
+	if ve.Thorough() {
+		// the larger bounds come after the quick-sized ones, so that a capped thorough run still
+		// covers everything the quick tier covers
+		r.Note("B(quick) took %.1fs", time.Since(t0).Seconds())
+		t0 = time.Now()
+		c33PartD(e, 3, 3)
+		r.Note("D(len 3) took %.1fs", time.Since(t0).Seconds())
+		t0 = time.Now()
+		c33PartC(e, true)
+		r.Note("C(thorough caps) took %.1fs", time.Since(t0).Seconds())
+		t0 = time.Now()
+		if !r.OutOfTime() {
+			c33PartB(e, true)
+		}
 	}
 	r.Note("B took %.1fs", time.Since(t0).Seconds())
 	{
